@@ -113,26 +113,19 @@ def _ltgroup(t):
         warnings.simplefilter("ignore")
         p._extract_seqfeatures_from_seqrecords()
         p._group_gene_features_by_locus_tag()
-    out = [str(len(p.grouped_gene_features[0]))]
+    res = [str(len(p.grouped_gene_features[0]))]
     for g in p.grouped_gene_features[0]:
         members = [g.gene_feature] if g.gene_feature is not None else []
         members += list(g.transcript_features) + list(g.cds_features)
         tags = {m.qualifiers["locus_tag"][0] for m in members}
-        # a group that holds only ignored ("other") features has no member to read the tag from
-        tag = tags.pop() if len(tags) == 1 else None
-        out.append((tag, g))
-    # groups come out in tag order; recover the tag of member-less groups from the sorted tag list
-    all_tags = sorted({f[0] for f in feats})
-    res = [out[0]]
-    for tag_expected, (tag, g) in zip(all_tags, out[1:]):
-        if tag is not None and tag != tag_expected:
-            return "err! GroupTagMismatch"
-        res.append(enc(tag_expected))
+        # since 48a0909 a tag carried only by ignored ("other") features yields no group at all, so every group
+        # has a member to read its tag from; a member-less or mixed-tag group is reported as such
+        if len(tags) != 1:
+            return "err! GroupWithoutSingleTag"
+        res.append(enc(tags.pop()))
         res.append("None" if g.gene_feature is None else _uid(g.gene_feature))
         res.append(" ".join([str(len(g.transcript_features))] + [_uid(x) for x in g.transcript_features]))
         res.append(" ".join([str(len(g.cds_features))] + [_uid(x) for x in g.cds_features]))
-    if len(all_tags) != len(out) - 1:
-        return "err! GroupCountMismatch"
     return "ok " + " ".join(res)
 
 
